@@ -34,6 +34,9 @@ type TaskSpec struct {
 
 type Case struct {
 	Tasks []TaskSpec `json:"tasks"`
+	// Stop: indexes of tasks for which the caller's stopCombineFn returns true (nil function when empty):
+	// merging ends at the first of them
+	Stop []int `json:"stop,omitempty"`
 	// Appends are tasks added with AddLast after the combine call returned... (see sched part)
 }
 
@@ -70,7 +73,34 @@ func gen(t *rapid.T) Case {
 		c.Tasks = append(c.Tasks, ts)
 		prev = &c.Tasks[len(c.Tasks)-1]
 	}
+	if n > 1 && rapid.IntRange(0, 2).Draw(t, "withStop") == 0 {
+		c.Stop = rapid.SliceOfNDistinct(rapid.IntRange(1, n-1), 1, 3, func(i int) int { return i }).Draw(t, "stop")
+	}
 	return c
+}
+
+// stopFn builds the caller's stopCombineFn for a case.
+func stopFn(c Case, tasks []task.Task) func(task.Task) bool {
+	if len(c.Stop) == 0 {
+		return nil
+	}
+	return func(t task.Task) bool {
+		for _, i := range c.Stop {
+			if i < len(tasks) && tasks[i] == t {
+				return true
+			}
+		}
+		return false
+	}
+}
+
+func stopped(c Case, i int) bool {
+	for _, x := range c.Stop {
+		if x == i {
+			return true
+		}
+	}
+	return false
 }
 
 func build(c Case) (*shop.ShellOperator, *queue.TaskQueue, []task.Task) {
@@ -131,7 +161,7 @@ func model(c Case) expect {
 	merged := map[int]bool{}
 	for i := 1; i < len(c.Tasks); i++ {
 		t := c.Tasks[i]
-		if t.NoMeta || t.Hook != head.Hook || t.Type != head.Type {
+		if t.NoMeta || t.Hook != head.Hook || t.Type != head.Type || stopped(c, i) {
 			break
 		}
 		merged[i] = true
@@ -170,9 +200,9 @@ func observe(res *shop.CombineResult) ([]Ctx, []string) {
 	return cs, res.MonitorIDs
 }
 
-func checkTwin(name string, c Case, e expect, call func(op *shop.ShellOperator, q *queue.TaskQueue, t task.Task) *shop.CombineResult) error {
+func checkTwin(name string, c Case, e expect, call func(op *shop.ShellOperator, q *queue.TaskQueue, t task.Task, stop func(task.Task) bool) *shop.CombineResult) error {
 	op, q, tasks := build(c)
-	res := call(op, q, tasks[0])
+	res := call(op, q, tasks[0], stopFn(c, tasks))
 	if e.isNil != (res == nil) {
 		return fmt.Errorf("%s: result nil=%v, expected nil=%v", name, res == nil, e.isNil)
 	}
@@ -204,18 +234,21 @@ func runCase(c Case) (ev.Info, error) {
 		return info, nil
 	}
 	e := model(c)
-	if err := checkTwin("exported", c, e, func(op *shop.ShellOperator, q *queue.TaskQueue, t task.Task) *shop.CombineResult {
-		return op.CombineBindingContextForHook(q, t, nil)
+	if err := checkTwin("exported", c, e, func(op *shop.ShellOperator, q *queue.TaskQueue, t task.Task, stop func(task.Task) bool) *shop.CombineResult {
+		return op.CombineBindingContextForHook(q, t, stop)
 	}); err != nil {
 		return info, err
 	}
-	if err := checkTwin("internal", c, e, func(op *shop.ShellOperator, q *queue.TaskQueue, t task.Task) *shop.CombineResult {
-		return op.VerifCombine(q, t, nil)
+	if err := checkTwin("internal", c, e, func(op *shop.ShellOperator, q *queue.TaskQueue, t task.Task, stop func(task.Task) bool) *shop.CombineResult {
+		return op.VerifCombine(q, t, stop)
 	}); err != nil {
 		return info, err
 	}
 	if e.nMerged > 0 && len(e.remain) > 1 {
 		info.NonTrivial = true
+	}
+	if len(c.Stop) > 0 {
+		info.Labels = append(info.Labels, "with-stopCombineFn")
 	}
 	if e.nMerged > 0 {
 		info.Labels = append(info.Labels, "merged")
@@ -241,7 +274,7 @@ func runCase(c Case) (ev.Info, error) {
 	return info, nil
 }
 
-const rule = "queue layouts of 1-14 tasks over 3 hooks, task types {HookRun, EnableKubernetesBindings, EnableScheduleBindings, foreign}, 1-3 uniquely named binding contexts per task with groups from {none,g1,g2}, 0-2 monitor ids, tasks without metadata; both combine twins run on identical copies and are compared with a reference model of merge+compaction and with the expected queue remainder (task identity and order). Non-trivial: at least one task merged and at least one other task remains behind the head. Distinct = distinct layouts."
+const rule = "queue layouts of 1-14 tasks over 3 hooks, task types {HookRun, EnableKubernetesBindings, EnableScheduleBindings, foreign}, 1-3 uniquely named binding contexts per task with groups from {none,g1,g2}, 0-2 monitor ids, tasks without metadata, in a third of the layouts a stopCombineFn that rejects 1-3 of the tasks (merging ends at the first rejected one); both combine twins run on identical copies and are compared with a reference model of merge+compaction and with the expected queue remainder (task identity and order). Non-trivial: at least one task merged and at least one other task remains behind the head. Distinct = distinct layouts."
 
 func TestCombine(t *testing.T) {
 	ev.Main(t, ev.Spec[Case]{Property: "C07", Part: "combine", Rule: rule, Gen: gen, Run: runCase})
